@@ -2,6 +2,7 @@ package varmq
 
 import (
 	"context"
+	"math"
 	"time"
 
 	"github.com/goptics/varmq/utils"
@@ -148,6 +149,12 @@ func withSafeConcurrency(concurrency int) uint32 {
 	if concurrency < 1 {
 		return utils.Cpus()
 	}
+
+	// values that do not fit are clamped, not truncated (k*2^32 used to become limit 0)
+	if uint64(concurrency) > math.MaxUint32 {
+		return math.MaxUint32
+	}
+
 	return uint32(concurrency)
 }
 
